@@ -16,6 +16,7 @@ other message, other polynomial, index ≥ n) is junk.
 import DosModel.Proofs.Tbls
 import DosModel.Proofs.ShareZq
 import DosModel.Model.TblsDrv
+import DosModel.Gen.PkgVars
 
 set_option linter.unusedSectionVars false
 
@@ -194,6 +195,27 @@ theorem c02_code_shape :
       "1| return p.commits[0]"
     ] :=
   ⟨rfl, rfl, rfl, rfl, rfl, rfl, rfl, rfl, rfl, rfl, rfl, rfl, rfl⟩
+
+/-- **no state is carried from one call to the next** (regenerated from /repo on every run by
+`go/extract/pkgvars`: ALL package-level `var` declarations): `sign/tbls` and `sign/bls` have none, `share`
+has the two error values only and nothing outside `init` writes them. A memo table / pool / cache added to
+one of the three packages breaks this obligation; it is what justifies modelling a sequence of calls by the
+models of the calls. -/
+theorem c02_no_package_state :
+    Gen.PkgVars.signTbls = [] ∧ Gen.PkgVars.signBls = []
+    ∧ Gen.PkgVars.share.map (fun v => (v.file, v.name)) = [("poly.go", "errorGroups"), ("poly.go", "errorCoeffs")]
+    ∧ Gen.PkgVars.share.all (fun v => !v.written) = true := by decide
+
+/-- **in a call history (`hist` lines, what `drv_c02` executes) only an explicit buffer write changes the
+state**: `Recover`, `Verify`, `Sign` steps leave it as it is, so what a later call answers is a function of
+its own arguments (and of the bytes its message buffer holds then) – never of the member sequences, shares
+or results of earlier recoveries. -/
+theorem hist_only_writes_change_state (t n : Nat) (f : List Fr) (bufs : List (Nat × Fr))
+    (toks : List String) (h : toks.head? ≠ some "w") : (histTok t n f bufs toks).1 = bufs := by
+  unfold histTok
+  split
+  · simp at h
+  all_goals (first | rfl | (simp only []; split <;> rfl))
 
 /-- **1. Lagrange at zero in the signature group** (the algebra behind recovery): for distinct
 nodes `L` and a polynomial of degree `< |L|`,
@@ -394,5 +416,9 @@ example : blsSign toyCodec (4 : Zq 11) 2 = blsSign toyCodec (([(4 : Zq 11), 3]).
         [[0, 9, 200], [0, 2, 4], [0, 2, 4, 77], [5], [0, 0, 8], [0, 0, 3]]).card :=
   recover_ok_is_group_signature toyCodec [(4 : Zq 11), 3] 2 2 3 (by decide)
     (zqCharGt 11 3 (by decide)) _ _ (by decide)
+
+/-- `hist_only_writes_change_state`: a `Recover` step over two entries leaves the buffer table alone -/
+example : (histTok 2 3 [(4 : Fr), 3] [(0, 5)] ["r", "0", "0000aa;0001bb"]).1 = [(0, 5)] :=
+  hist_only_writes_change_state 2 3 _ _ _ (by decide)
 
 end Dos.Props.C02
